@@ -13,8 +13,8 @@ import json
 
 from vp.core import Ctx, Fail, HarnessError, SubCheck, Tally
 from vp.purity import (
-    CATALOGUE, Bits, BitsVar, Cat, Choice, Const, Flag, Hex, HexVar, Int, ListOf, OneOf, Rec, Vec, ZygotePair,
-    args_strategy, canonical_calls, entry, fork_run,
+    CATALOGUE, Bits, BitsVar, Cat, Choice, Const, Flag, Hex, HexVar, Int, ListOf, Map, OneOf, Rec, Seq, Vec, ZygotePair,
+    args_strategy, canonical_calls, entry, fork_run, mode_families,
 )
 
 LEVEL = "exploration"
@@ -864,8 +864,122 @@ def _(a, T):
 
 # ---------------------------------------------------------------------------------------------- Hytera application protocols
 
+# structured wire frames (pure Python builders; every opcode / variant a dispatcher implements is one *mode* of the spec)
 
-@entry("hdap.from_bytes", "hytera", dict(data=Vec(V_RCP[:4] + V_LP + V_TMP + V_RRS)), parse=True, ncanon=8)
+
+def _hb(lo, hi, n=1, le=False):
+    """n-byte integer field in [lo, hi] as hex (one mode, random data)"""
+    return Map(Int(lo, hi), lambda v: v.to_bytes(n, "little" if le else "big").hex())
+
+
+def _hdap_frame(d):
+    """HDAP: service | opcode(2) | payload length(2) | payload | checksum | 03"""
+    payload, op = bytes.fromhex(d["payload"]), bytes.fromhex(d["op"])
+    checked = op + len(payload).to_bytes(2, "little" if d["le"] else "big") + payload
+    cs = ((((sum(checked) & 0xFF) ^ 0xFF) + 0x33) & 0xFF)
+    return (bytes([d["svc"] | (0x80 if d["rel"] else 0)]) + checked + bytes([cs, 0x03])).hex()
+
+
+def _hdap(svc, le, op_hex, *payload):
+    return Map(Rec(svc=Const(svc), rel=Flag(), op=Const(op_hex), le=Const(le), payload=Cat(*payload) if payload else Const("")), _hdap_frame)
+
+
+def _rcp(opcode, *payload):
+    return _hdap(0x02, True, opcode.to_bytes(2, "little").hex(), *payload)
+
+
+_ID4 = lambda: _hb(1, 0xFFFFFF, 4, True)
+S_RCP = OneOf(
+    _rcp(0x0841, _hb(0, 0x0F), _ID4()),                                                   # CallRequest
+    _rcp(0x8841, _hb(0, 1)),                                                              # CallReply
+    _rcp(0xB845, _hb(0, 1, 2, True), _hb(0, 0x0F, 2, True), _hb(0, 7, 2, True), _hb(0, 0x0F, 2, True), _ID4(), _ID4()),  # RepeaterBroadcastTransmitStatus
+    _rcp(0x1847, _hb(0, 7), Const("00" * 7)),                                             # BroadcastMessageConfigurationRequest
+    _rcp(0x8847, _hb(0, 1)),
+    _rcp(0x0452, _hb(0, 1)),                                                              # RadioIDAndRadioIPQueryRequest
+    _rcp(0x8452, _hb(0, 1), _hb(0, 1), Hex(4)),
+    _rcp(0x10C9, Const("02"), Hex(4)),                                                    # BroadcastStatusConfigurationRequest
+    _rcp(0x80C9, _hb(0, 1)),
+    _rcp(0x0852, _hb(0, 0x0F), _ID4(), _ID4(), _hb(0, 3), Const("04"), Map(Int(0, 25 ** 4 - 1), lambda v: "".join("%02x" % (0x41 + (v // 25 ** i) % 25) for i in range(4)))),  # SendTalkerAliasRequest
+    _rcp(0x8852, _hb(0, 1), _hb(0, 0x0F), _ID4(), _ID4()),
+    _rcp(0x00C4, Hex(5)),                                                                 # ZoneAndChannelOperationRequest
+    _rcp(0x80C4, Hex(12)),
+    _rcp(0x10C7, Const("02"), _hb(1, 0x16), _hb(0, 1), _hb(1, 0x16), _hb(0, 1)),          # StatusChangeNotificationRequest (two pairs)
+    _rcp(0x10C7, Const("01"), _hb(1, 0x16), _hb(0, 2)),
+    _rcp(0x10C7, Const("04"), _hb(1, 0x16), _hb(0, 1), _hb(1, 0x16), _hb(0, 1), _hb(1, 0x16), _hb(0, 1), _hb(1, 0x16), _hb(0, 1)),
+    _rcp(0x80C7, _hb(0, 1)),
+    _rcp(0xB0C8, _hb(1, 0x16), Hex(2)),                                                   # RadioStatusReport
+    _rcp(0x0204, Hex(5)),                                                                 # unknown service: raw payload kept
+    _rcp(0x0842, Hex(5)),                                                                 # known opcode without parser: documented ValueError
+)
+
+
+def _tmp(flags_op, *body, option=None):
+    parts = ([Const("%04x" % (len(option) // 2))] if option is not None else []) + list(body) + ([Const(option)] if option is not None else [])
+    return _hdap(0x09, False, flags_op, *parts)
+
+
+_IP4 = lambda: Cat(Const("0a"), Hex(3))
+_TMP_RESULT = lambda: _hb(3, 12)
+_TEXT = lambda: Map(Int(0, 25 ** 6 - 1), lambda v: "".join("%02x00" % (0x41 + (v // 25 ** i) % 25) for i in range(6)))
+S_TMP = OneOf(
+    _tmp("80a1", Hex(4), _IP4(), _IP4(), _TEXT()), _tmp("00b1", Hex(4), _IP4(), _IP4(), _TEXT()),
+    _tmp("80a2", Hex(4), _IP4(), _IP4(), _TMP_RESULT()), _tmp("00b2", Hex(4), _IP4(), _TMP_RESULT()),
+    _tmp("80ae", Hex(4), _IP4(), _IP4(), Hex(5)), _tmp("00af", Hex(4), _IP4(), _IP4(), _TMP_RESULT()),
+    _tmp("80be", Hex(4), _IP4(), _IP4(), Hex(5)), _tmp("00bf", Hex(4), _IP4(), _TMP_RESULT()),
+    _tmp("c0a2", Hex(4), _IP4(), _IP4(), _TMP_RESULT(), option="010203"), _tmp("c0a1", Hex(4), _IP4(), _IP4(), _TEXT(), option="0a0b"),
+    _tmp("c0a1", Hex(4), _IP4(), _IP4(), _TEXT(), option=""),
+)
+
+
+def _gps_hex(d):
+    txt = ("A" if d["valid"] else "V") + "%02d%02d%02d" % (d["h"], d["mi"], d["s"]) + "%02d%02d%02d" % (d["d"], d["mo"], d["y"]) + "N" \
+        + "%09.4f" % (d["lat"] / 10000) + "E" + "%010.4f" % (d["lon"] / 10000) + "%03.1f" % (d["speed"] / 10) + "%03d" % d["dir"]
+    return txt.encode("ascii").hex()
+
+
+S_GPS = Map(Rec(valid=Flag(), h=Int(0, 23), mi=Int(0, 59), s=Int(0, 59), d=Int(1, 28), mo=Int(1, 12), y=Int(0, 99), lat=Int(0, 89_999_999),
+                lon=Int(0, 179_999_999), speed=Int(0, 99), dir=Int(0, 359)), _gps_hex)
+S_LP = OneOf(_hdap(0x08, False, "a001", Hex(4), _IP4()), _hdap(0x08, False, "a002", Hex(4), _IP4(), Choice(["0000", "0006", "0069"]), S_GPS))
+S_RRS = OneOf(_hdap(0x11, False, "0003", _IP4()), _hdap(0x11, False, "0001", _IP4()), _hdap(0x11, False, "0002", _IP4()),
+              _hdap(0x11, False, "0080", _IP4(), _hb(0, 2), _hb(1, 0xFFFE, 4)), _hdap(0x11, False, "0082", _IP4(), _hb(0, 1)))
+S_HDAP = OneOf(S_RCP, S_TMP, S_LP, S_RRS)
+
+
+def _hrnp_frame(d):
+    data = bytes.fromhex(d["data"])
+    head = bytes([0x7E, d["version"], d["block"], d["op"], d["src"], d["dst"]]) + d["pn"].to_bytes(2, "big") + (12 + len(data)).to_bytes(2, "big")
+    checked = head + data + (b"\x00" if (len(head) + len(data)) % 2 else b"")
+    c = sum(int.from_bytes(checked[i:i + 2], "big") for i in range(0, len(checked), 2))
+    while c >> 16:
+        c = (c & 0xFFFF) + (c >> 16)
+    c = (~c & 0xFFFF) if d["good"] else 0x1234
+    return (head + c.to_bytes(2, "big") + data).hex()
+
+
+def _hrnp(op, data=None):
+    return Map(Rec(version=Choice([4, 3]), block=Const(0), op=Const(op), src=Choice([0x20, 0x10]), dst=Choice([0x10, 0x20]), pn=Int(0, 65535),
+                   good=Choice([True, False]), data=data if data is not None else Const("")), _hrnp_frame)
+
+
+S_HRNP = OneOf(*([_hrnp(op) for op in (0xFE, 0xFD, 0xFC, 0xFB, 0xFA, 0x10)] + [_hrnp(0x00, _rcp(0x0841, _hb(0, 0x0F), _ID4())), _hrnp(0x00, S_RRS.specs[3])]))
+_HSTRP_OPTS = lambda: Cat(Const("8304"), Hex(4), Const("0401"), _hb(1, 2))
+S_HSTRP = OneOf(
+    Cat(Const("32420002"), Const("0000")), Cat(Const("32420001"), Hex(2)), Cat(Const("32420008"), Const("0000")), Cat(Const("32420010"), Const("0000")),
+    Cat(Const("32420004"), Const("0000")), Cat(Const("32420024"), Const("0000"), _HSTRP_OPTS()), Cat(Const("32420005"), Hex(2)),
+    Cat(Const("32420020"), Hex(2), _HSTRP_OPTS(), _rcp(0x8841, _hb(0, 1))), Cat(Const("32420020"), Hex(2), _HSTRP_OPTS(), S_RRS.specs[3]),
+    Cat(Const("32420000"), Hex(2), _rcp(0x0841, _hb(0, 0x0F), _ID4())),
+)
+S_TMS = OneOf(Seq(["0003D00001", "0003D00002"]), Seq(["00021F00", "00025F00"]), Seq(["00049F009520", "00049F009640"]), Seq(["00029000", "00021000"]),
+              Seq(["000DE0010195446100680" + "06F006A00", "000DE0010296446200690" + "070006B00"]), Seq(["000BA00101" + "6100680" + "06F006A00", "000BA00102" + "6200690" + "070006B00"]))
+S_ARS = OneOf(Seq(["0007F0200231310000", "0007F0200232330000"]), Seq(["000131", "000111"]),
+              Seq(["0010F5000231310939393939393939393900", "0010F5000232320938383838383838383800"]), Seq(["0002BF01", "0002BF02"]), Seq(["0002FF03", "0002FF07"]),
+              Seq(["000174", "000154"]), Seq(["00013F", "00017F"]), Seq(["00033F1080", "00037F1080"]), Seq(["00067002313200" + "00", "00067002333400" + "00"]))
+S_MBXML = OneOf(*[Seq([v, v.replace("2468ACE0", "13579BDF")]) for v in V_MBXML[:6] + V_MBXML[10:]],
+                Seq(V_MBXML[6:8]), Seq(V_MBXML[8:10]), Seq(["0D0F22042468ACE0" + "0D0922042468ACE034313C"[4:], "0D0F2204AABBCCDD66118ECD8D118AD47B"]))
+
+
+
+@entry("hdap.from_bytes", "hytera", dict(data=OneOf(Vec(V_RCP[:4] + V_LP + V_TMP + V_RRS), S_HDAP)), parse=True, ncanon=8)
 def _(a, T):
     from okdmr.dmrlib.hytera.pdu.hdap import HDAP
 
@@ -879,7 +993,7 @@ def _(a, T):
     return (HDAP.get_hdap_checksum(T.bytes(a["data"])), HDAP.get_reliable_and_service(a["first"] & 0x93))
 
 
-@entry("rcp.from_bytes", "hytera", dict(data=Vec(V_RCP)), parse=True, ncanon=14)
+@entry("rcp.from_bytes", "hytera", dict(data=OneOf(Vec(V_RCP), S_RCP)), parse=True, ncanon=14)
 def _(a, T):
     from okdmr.dmrlib.hytera.pdu.radio_control_protocol import RadioControlProtocol
 
@@ -907,7 +1021,7 @@ def _(a, T):
     return r.RadioControlProtocol(opcode=r.RCPOpcode.StatusChangeNotificationRequest, status_change_settings=d)
 
 
-@entry("lp.from_bytes", "hytera", dict(data=Vec(V_LP)), parse=True)
+@entry("lp.from_bytes", "hytera", dict(data=OneOf(Vec(V_LP), S_LP)), parse=True)
 def _(a, T):
     from okdmr.dmrlib.hytera.pdu.location_protocol import LocationProtocol
 
@@ -929,14 +1043,14 @@ def _(a, T):
     return GPSData.from_bytes(T.bytes(a["data"]))
 
 
-@entry("tmp.from_bytes", "hytera", dict(data=Vec(V_TMP)), parse=True, ncanon=4)
+@entry("tmp.from_bytes", "hytera", dict(data=OneOf(Vec(V_TMP), S_TMP)), parse=True, ncanon=4)
 def _(a, T):
     from okdmr.dmrlib.hytera.pdu.text_message_protocol import TextMessageProtocol
 
     return TextMessageProtocol.from_bytes(T.bytes(a["data"]))
 
 
-@entry("rrs.from_bytes", "hytera", dict(data=Vec(V_RRS)), parse=True, ncanon=4)
+@entry("rrs.from_bytes", "hytera", dict(data=OneOf(Vec(V_RRS), S_RRS)), parse=True, ncanon=4)
 def _(a, T):
     from okdmr.dmrlib.hytera.pdu.radio_registration_service import RadioRegistrationService
 
@@ -951,7 +1065,7 @@ def _(a, T):
     return (o, o.as_ip(), RadioIP.from_ip(o.as_ip(), a["endian"]))
 
 
-@entry("hrnp.from_bytes", "hytera", dict(data=Vec(V_HRNP)), parse=True, ncanon=10)
+@entry("hrnp.from_bytes", "hytera", dict(data=OneOf(Vec(V_HRNP), S_HRNP)), parse=True, ncanon=10)
 def _(a, T):
     from okdmr.dmrlib.hytera.pdu.hrnp import HRNP
 
@@ -965,7 +1079,7 @@ def _(a, T):
     return HRNP(packet_number=a["pn"])
 
 
-@entry("hstrp.from_bytes", "hytera", dict(data=Vec(V_HSTRP)), parse=True, ncanon=7)
+@entry("hstrp.from_bytes", "hytera", dict(data=OneOf(Vec(V_HSTRP), S_HSTRP)), parse=True, ncanon=7)
 def _(a, T):
     from okdmr.dmrlib.hytera.pdu.hstrp import HSTRP
 
@@ -986,7 +1100,7 @@ LRRP_DOCS = ["LRRP_ImmediateLocationRequest_NCDT", "LRRP_ImmediateLocationReport
              "LRRP_TriggeredLocationStopRequest_NCDT", "LRRP_TriggeredLocationStopAnswer_NCDT", "LRRP_UnsolicitedLocationReport_NCDT"]
 
 
-@entry("mbxml.from_bytes", "mbxml", dict(data=Vec(V_MBXML), debug=Choice([False, False, False, True])), parse=True, ncanon=12)
+@entry("mbxml.from_bytes", "mbxml", dict(data=OneOf(Vec(V_MBXML), S_MBXML), debug=Choice([False, False, False, True])), parse=True, ncanon=12)
 def _(a, T):
     from okdmr.dmrlib.motorola.mbxml import MBXML
 
@@ -1087,14 +1201,14 @@ def _(a, T):
     return (MBXML.build_constants_table(di), LRRP.get_configuration(di), LRRP.get_known_tokens(True), LRRP.get_known_tokens(False), LRRP.get_known_attributes())
 
 
-@entry("tms.from_bytes", "motorola", dict(data=Vec(V_TMS), endian=Choice(["big", "big", "little"])), parse=True, ncanon=4)
+@entry("tms.from_bytes", "motorola", dict(data=OneOf(Vec(V_TMS), S_TMS), endian=Choice(["big", "big", "little"])), parse=True, ncanon=4)
 def _(a, T):
     from okdmr.dmrlib.motorola.text_messaging_service import TextMessagingService
 
     return TextMessagingService.from_bytes(T.bytes(a["data"]), a["endian"])
 
 
-@entry("ars.from_bytes", "motorola", dict(data=Vec(V_ARS)), parse=True, ncanon=7)
+@entry("ars.from_bytes", "motorola", dict(data=OneOf(Vec(V_ARS), S_ARS)), parse=True, ncanon=7)
 def _(a, T):
     from okdmr.dmrlib.motorola.automatic_registration_service import AutomaticRegistrationService
 
